@@ -6,6 +6,7 @@ import (
 	"crypto/tls"
 	"encoding/binary"
 	"fmt"
+	"github.com/jackc/pgx/v5/pgtype"
 	"runtime"
 	"strings"
 	"time"
@@ -27,8 +28,8 @@ const c04L = 1 << 16
 
 func init() {
 	core.Register(c04{base{id: "C04", level: "fault_enumeration", quickB: 16, thoroughB: 32,
-		rule:        "two parts, both in isolated child processes (a panic anywhere kills the child = crash witness). (1) fault enumeration, exhaustive: for each canonical session (auth ok/rejected, simple, multi-statement, extended batch, error batch, text and binary COPY ok/aborted, oversized message, Terminate, CancelRequest alone / followed by traffic, GSSENCRequest, COPY fields and Bind parameters of array / multirange type whose header announces millions of elements, generated C15 sessions; 17 in quick, 40 in thorough) the fault-free run's number of transport Read calls, Write calls and inbound bytes is measured, then the session is re-run with the transport failing at EVERY k-th Read (error and EOF), EVERY k-th Write (error and short write) and EVERY inbound byte offset. (1b) CancelRequest / SSLRequest / GSSENCRequest packets carrying 0-12 bytes behind the request code, as first packet, after a refused SSLRequest and inside an upgraded TLS connection. (2) input exploration: structure-aware mutation of valid streams (truncate at any offset, set any length/count field to 0,1,max-1,max,2^31,2^32-1, flip type bytes, duplicate/reorder/delete messages, splice random bytes, well-framed Bind messages whose format-code, value and result-format counts are mutually independent) on fresh connections (incl. SSLRequest and password phases), after a valid startup incl. COPY mode, and inside upgraded TLS connections; handlers call ParseParameters on every query, Parameter.Scan on every parameter and the binary COPY row reader. Oracles: process survives; after EOF/transport failure the server's own Close is observed and at most 64 further transport calls are made (spin detector); no (*Server).serve goroutine is left at batch end; a fresh probe connection is served after every 200 cases; allocation sanitizer: no object allocated by library code exceeds 8L+4MiB; no fabricated data: query texts reaching the parser are, in order, a subsequence of the texts carried by well-framed Query/Parse frames of the input, parameter values and COPY chunks are byte strings of the input. Non-trivial = fault at a position the fault-free run reaches, or a mutated stream; distinct = (session, fault kind, position) / mutation shape.",
-		need:        []string{"fault_runs", "read_faults", "write_faults", "byte_offset_faults", "mutated_inputs", "server_close_observed", "probe_connections_served", "leak_checks", "alloc_profile_checks", "fabrication_checks"},
+		rule:        "two parts, both in isolated child processes (a panic anywhere kills the child = crash witness). (1) fault enumeration, exhaustive: for each canonical session (auth ok/rejected, simple, multi-statement, extended batch, error batch, text and binary COPY ok/aborted, oversized message, Terminate, CancelRequest alone / followed by traffic, GSSENCRequest, COPY fields and Bind parameters of array / multirange / record type whose header announces millions of elements, generated C15 sessions; 17 in quick, 40 in thorough) the fault-free run's number of transport Read calls, Write calls and inbound bytes is measured, then the session is re-run with the transport failing at EVERY k-th Read (error and EOF), EVERY k-th Write (error and short write) and EVERY inbound byte offset. (1b) CancelRequest / SSLRequest / GSSENCRequest packets carrying 0-12 bytes behind the request code, as first packet, after a refused SSLRequest and inside an upgraded TLS connection. (1c) every type of a connection's type map is handed binary and text values whose leading words announce millions of elements, through NewScanner and Parameter.Scan. (2) input exploration: structure-aware mutation of valid streams (truncate at any offset, set any length/count field to 0,1,max-1,max,2^31,2^32-1, flip type bytes, duplicate/reorder/delete messages, splice random bytes, well-framed Bind messages whose format-code, value and result-format counts are mutually independent) on fresh connections (incl. SSLRequest and password phases), after a valid startup incl. COPY mode, and inside upgraded TLS connections; handlers call ParseParameters on every query, Parameter.Scan on every parameter and the binary COPY row reader. Oracles: process survives; after EOF/transport failure the server's own Close is observed and at most 64 further transport calls are made (spin detector); no (*Server).serve goroutine is left at batch end; a fresh probe connection is served after every 200 cases; allocation sanitizer: no object allocated by library code exceeds 8L+4MiB; no fabricated data: query texts reaching the parser are, in order, a subsequence of the texts carried by well-framed Query/Parse frames of the input, parameter values and COPY chunks are byte strings of the input. Non-trivial = fault at a position the fault-free run reaches, or a mutated stream; distinct = (session, fault kind, position) / mutation shape.",
+		need:        []string{"hostile_values_decoded", "fault_runs", "read_faults", "write_faults", "byte_offset_faults", "mutated_inputs", "server_close_observed", "probe_connections_served", "leak_checks", "alloc_profile_checks", "fabrication_checks"},
 		assumptions: append([]string{"allocation bound is c*L+K (8L+4MiB): the library allocates in 4 KiB granules and its 16-bit count fields cap tables at ~2.6 MiB regardless of L; a malformed body may be answered by an ErrorResponse or by closing the connection; after a frame with a declared length below 4 the input is not judged for fabrication"}, commonAssumptions...)}})
 }
 
@@ -46,7 +47,7 @@ func c04sess() *hs.Sess {
 		case strings.HasPrefix(q, "copyb"):
 			return &hs.Prog{Stmts: []*hs.Stmt{{ID: "copyb", Cols: cols, ParseParams: true, Ops: []hs.Op{{K: "copy", Copy: &hs.CopyPlan{Format: wire.BinaryFormat, MaxReads: -1, OnErr: "propagate", Binary: true}}}}}}
 		case strings.HasPrefix(q, "copya"): // binary COPY with container-typed columns (array, multirange)
-			acols := wire.Columns{{Name: "a", Oid: oid.T_text, Width: -1}, {Name: "arr", Oid: oid.T__int4, Width: -1}, {Name: "mr", Oid: 4451, Width: -1}}
+			acols := wire.Columns{{Name: "a", Oid: oid.T_text, Width: -1}, {Name: "arr", Oid: oid.T__int4, Width: -1}, {Name: "mr", Oid: 4451, Width: -1}, {Name: "rec", Oid: 2249, Width: -1}}
 			return &hs.Prog{Stmts: []*hs.Stmt{{ID: "copya", Cols: acols, ParseParams: true, Ops: []hs.Op{{K: "copy", Copy: &hs.CopyPlan{Format: wire.BinaryFormat, MaxReads: -1, OnErr: "propagate", Binary: true}}}}}}
 		case strings.HasPrefix(q, "copyt"):
 			return &hs.Prog{Stmts: []*hs.Stmt{{ID: "copyt", Cols: cols, ParseParams: true, Ops: []hs.Op{{K: "copy", Copy: &hs.CopyPlan{Format: wire.TextFormat, MaxReads: -1, OnErr: "propagate"}}}}}}
@@ -72,6 +73,7 @@ func c04sess() *hs.Sess {
 			p.Scan(uint32(oid.T__int4))
 			p.Scan(uint32(oid.T__text))
 			p.Scan(4451) // int4multirange
+			p.Scan(2249) // record
 			p.Scan(12345)
 		}
 	}
@@ -112,7 +114,7 @@ func c04canonical(rng *core.Rng, n int) []c04session {
 	}
 	lyingArray, lyingRanges := be(1, 0, 23, 3000000, 1), be(3000000)
 	field := func(b []byte) []byte { return append(be(uint32(len(b))), b...) }
-	arow := append(append([]byte{0, 3}, field([]byte("t"))...), append(field(lyingArray), field(lyingRanges)...)...)
+	arow := append(append([]byte{0, 4}, field([]byte("t"))...), append(append(field(lyingArray), field(lyingRanges)...), field(be(3000000))...)...)
 	abin := append(append(append([]byte{}, c14header...), arow...), 0xff, 0xff)
 	all := []c04session{
 		{Name: "copy-binary-lying-containers", Msgs: cat([][]byte{start, pg.Query("copya in"), pg.CopyData(abin), pg.CopyDone(), pg.Query("select 1"), pg.Terminate()})},
@@ -345,6 +347,44 @@ func (ch c04) Run(c *core.Ctx) {
 			}
 		}
 		probe()
+	}
+	// ---- every type a connection's type map knows, fed client-style binary values whose leading words
+	// announce millions of elements / fields / dimensions, through both decode entry points of the
+	// library (COPY scanner, Parameter.Scan): no panic (= child exit), nothing large allocated ----
+	if c.Batch == 1%nb && c.Begin(850000000) {
+		m := pgtype.NewMap()
+		hostile := [][]byte{
+			{0, 0x2d, 0xc6, 0xc0},
+			{0, 0x2d, 0xc6, 0xc0, 0, 0, 0, 0, 0, 0, 0, 0, 0, 0, 0, 0},
+			{0, 0, 0, 1, 0, 0, 0, 0, 0, 0, 0, 23, 0, 0x2d, 0xc6, 0xc0, 0, 0, 0, 1},
+			{0, 0, 0, 2, 0, 0x2d, 0xc6, 0xc0, 0, 0, 0, 0, 0, 0, 0, 0},
+			{0xff, 0xff, 0xff, 0xf0, 0, 0, 0, 1, 0xff, 0xff, 0xff, 0xff},
+			{0, 0, 0, 1, 0, 0, 0, 0, 0, 0, 0, 23, 0, 0, 0, 2, 0, 0, 0, 1, 0x02, 0, 0, 0x2c, 1},
+			{},
+			{1},
+		}
+		rng := core.NewRng(c.Seed, "C04types", 0, 0)
+		for k := 0; k < 24; k++ {
+			hostile = append(hostile, rng.Bytes(1+rng.Intn(40)))
+		}
+		ntypes := 0
+		for o := uint32(1); o < 6000; o++ {
+			if _, ok := m.TypeForOID(o); !ok {
+				continue
+			}
+			ntypes++
+			for _, f := range []wire.FormatCode{wire.BinaryFormat, wire.TextFormat} {
+				sc, err := wire.NewScanner(m, wire.Column{Oid: oid.Oid(o)}, f)
+				for _, h := range hostile {
+					if err == nil {
+						sc(h)
+					}
+					wire.NewParameter(m, f, h).Scan(o)
+					c.Count("hostile_values_decoded", 2)
+				}
+			}
+		}
+		c.Eval(fmt.Sprintf("hostile values for %d registered types", ntypes), true)
 	}
 	// ---- part 2: input exploration ----
 	for i := c.Batch; i < nmut; i += nb {
